@@ -230,6 +230,43 @@ def u_reconnect(n, lost):
         cover("re-rejected")
 
 
+def u_after_proto(nx, nz):
+    """TEXT fin=0 (x), then a NEW data frame while the message is open (sequencing violation -> protocol exception); the caller
+    catches it and receives again; a third frame (continuation or text, FIN set) arrives.  Whatever is DELIVERED afterwards must
+    be a real message: either the original one completed by the continuation (x+z) or the new standalone text (z) - judged on
+    exactly those bytes.  (Refusing everything after the violation is acceptable too.)"""
+    quiet_logging()
+    from websocket._exceptions import (WebSocketConnectionClosedException, WebSocketPayloadException,
+                                       WebSocketProtocolException)
+    x, y, z = sx.sym_bytes("x", nx), sx.sym_bytes("y", 1), sx.sym_bytes("z", nz)
+    op2 = 1 + sx.choice("op2", 2)
+    fin2 = sx.choice("fin2", 2)
+    op3 = sx.choice("op3", 2)
+    stream = sx.cat(server_frame(0, 1, x), server_frame(fin2, op2, y), server_frame(1, op3, z))
+    ws = new_ws(FakeSock([stream, "eof"]))
+    try:
+        ws.recv_data()
+        sx.require(False, "a data frame interrupting an open message was not rejected")
+        return
+    except WebSocketProtocolException:
+        pass
+    try:
+        op, out = ws.recv_data()
+    except (WebSocketProtocolException, WebSocketPayloadException, WebSocketConnectionClosedException):
+        cover("refused-after")
+        return
+    except (sx.Control, sx.ConcreteFailure, sx.ReplayMismatch):
+        raise
+    except Exception as e:
+        sx.require(False, "receive after a rejected frame raised %s" % type(e).__name__, op3=op3)
+        return
+    whole = sx.cat(x, z) if op3 == 0 else z
+    sx.require(sx.And(op == 1, out == whole), "a message delivered after a rejected frame consists of exactly its own fragments "
+               "(open message + continuation, or the new frame alone)", op3=op3, nx=nx, nz=nz)
+    sx.require(sx.utf8_valid(whole), "a text message delivered after a rejected frame is well-formed UTF-8 on its own bytes", op3=op3, nx=nx, nz=nz)
+    cover("delivered-after")
+
+
 def _all_cuts(n, maxfrag):
     import itertools
     out = [()]
@@ -265,6 +302,10 @@ def obligations(tier):
                    bounds="connection lost after a non-final text fragment / inside a frame (2 symbolic bytes), connect() again on the same object, "
                           "then a text frame of 1..3 arbitrary bytes", must_cover=["re-accepted", "re-rejected"],
                    kernel=["WebSocket.connect", "frame_buffer", "continuous_frame", "recv_data_frame"]),
+        Obligation("U-after-proto", u_after_proto, [dict(nx=a, nz=b) for a in (1, 2) for b in (1, 2)],
+                   bounds="text fragment of 1..2 symbolic bytes, an interrupting text/binary frame (FIN symbolic), the caller receives again: "
+                          "continuation or text frame of 1..2 symbolic bytes", must_cover=["delivered-after"],
+                   kernel=["continuous_frame.validate", "continuous_frame.add", "extract", "recv_data_frame", "validate_utf8"]),
         Obligation("U-recv", u_recv, [dict(n=n) for n in range(0, 5 if thorough else 4)],
                    bounds="single text frame of 0..%d arbitrary bytes through recv()" % (4 if thorough else 3),
                    must_cover=["accepted", "rejected"], kernel=["WebSocket.recv"]),
